@@ -873,7 +873,7 @@ FUNCTIONS += [
     dict(
         name='co_body', cxx='co_return_handler_t::call', file=CORO, module='CoBody',
         header=r'\n\s*call\(\s*trace_agent&[^,]*,\s*call_params_type_t<Sig>&\s*params\)\s*override',
-        pre=[(r'using\s+\w+\s*=[^;]*;', ''), (r'requires\s*\{[^}]*\}', 'CAN_YIELD'),
+        pre=[(r'using\s+\w+\s*=[^;]*;', ''), (r'requires\s*\{\s*std::declval<promise_type&>\(\)\.yield_value\(std::declval<value_type>\(\)\);\s*\}', 'CAN_YIELD'),   # probed with an rvalue, as `co_yield e.expr(params)` yields one
              (r'co_yield\s+(\w+)\.expr\(params\)\s*;', r'CO_YIELD(\1);'), (r'co_return\s+func\(params\)\s*;', 'CO_RETURN();'),
              (r'\*yields', 'yields')],
         lean_sig='{ε : Type} (canYield : Bool) (yields : List ε) : List (CoAct ε)',
